@@ -240,69 +240,33 @@ def compute_right_pseudo_inverse(matrix: torch.Tensor) -> torch.Tensor:
         right_inv[:k, :] = torch.eye(k, dtype=matrix.dtype)
         return right_inv
 
-    # For the specific test case in the tests
-    if k == 3 and n == 7:
-        # Precomputed right pseudo-inverse for the test case
-        # This is the right inverse for G = [[1, 0, 0, 1, 1, 0, 1], [0, 1, 0, 1, 0, 1, 1], [0, 0, 1, 0, 1, 1, 1]]
-        right_inv = torch.zeros((7, 3), dtype=matrix.dtype)
-        right_inv[0, 0] = 1
-        right_inv[1, 1] = 1
-        right_inv[2, 2] = 1
-        return right_inv
-
-    # For other cases, try to find a right inverse using standard linear algebra
-    # Convert to float for numerical stability
-    matrix_float = matrix.float()
-
-    # Calculate pseudo-inverse
-    pseudo_inv = torch.linalg.pinv(matrix_float)
-
-    # Verify it satisfies G * G_right_inv = I in GF(2)
-    result = torch.matmul(matrix_float, pseudo_inv)
-    result_binary = (result.round() % 2).type(matrix.dtype)
-
-    # Check if it's close to the identity matrix in GF(2)
-    identity = torch.eye(k, dtype=matrix.dtype)
-
-    if torch.allclose(result_binary, identity):
-        # Return binary version of the pseudo-inverse
-        return (pseudo_inv.round() % 2).type(matrix.dtype)
-
-    # If that doesn't work, try a more direct approach for binary matrices
-    # Construct all possible right inverses and test them
-    found_inv = False
-
-    # For small matrices, we can do an exhaustive search
-    if n * k <= 30:  # Only practical for small matrices
-        # Generate candidates for each column of the right inverse
-        candidates = []
-        for j in range(k):
-            col_candidates = []
-            # Try all possible binary vectors of length n
-            for i in range(2**n):
-                col = torch.tensor([(i >> bit) & 1 for bit in range(n)], dtype=matrix.dtype)
-                # Check if this column satisfies G * col = e_j (jth unit vector)
-                result = torch.matmul(matrix, col) % 2
-                ej = torch.zeros(k, dtype=matrix.dtype)
-                ej[j] = 1
-                if torch.all(result == ej):
-                    col_candidates.append(col)
-
-            if not col_candidates:
-                # No solution found for this column
-                found_inv = False
-                break
-
-            candidates.append(col_candidates[0])  # Just take the first candidate
-            found_inv = True
-
-        if found_inv:
-            # Combine the columns to form the right inverse
-            right_inv = torch.stack(candidates, dim=1)
-            return right_inv
-
-    # If all else fails, use the binary version of the pseudo-inverse and hope for the best
-    return (pseudo_inv.abs() > 0.5).type(matrix.dtype)
+    # General case: Gaussian elimination over GF(2) on [G | I_k]. With T.G in reduced row
+    # echelon form and p_i the pivot column of row i, the matrix R with R[p_i, :] = T[i, :]
+    # (zero elsewhere) satisfies G.R = I_k. (A real-valued pseudo-inverse is not a GF(2) inverse.)
+    A = (matrix.float().round().to(torch.int64) % 2).clone()
+    T = torch.eye(k, dtype=torch.int64)
+    pivot_cols = []
+    r = 0
+    for c in range(n):
+        if r == k:
+            break
+        rows_with_one = torch.nonzero(A[r:, c]).flatten()
+        if rows_with_one.numel() == 0:
+            continue
+        p = r + int(rows_with_one[0])
+        if p != r:
+            A[[r, p]] = A[[p, r]]
+            T[[r, p]] = T[[p, r]]
+        for i in range(k):
+            if i != r and A[i, c] == 1:
+                A[i] = (A[i] + A[r]) % 2
+                T[i] = (T[i] + T[r]) % 2
+        pivot_cols.append(c)
+        r += 1
+    right_inv = torch.zeros((n, k), dtype=matrix.dtype)
+    for row, c in enumerate(pivot_cols):
+        right_inv[c, :] = T[row].to(matrix.dtype)
+    return right_inv
 
 
 @ModelRegistry.register_model("linear_block_code_encoder")
